@@ -2,6 +2,7 @@ package main
 
 import (
 	"fmt"
+	"io"
 	"reflect"
 	"sort"
 
@@ -86,7 +87,25 @@ func mutateProg(r *mon.Rand, p dprog, pool *strPool) dprog {
 			tagIdx = append(tagIdx, i)
 		}
 	}
-	switch r.Intn(6) {
+	switch r.Intn(7) {
+	case 6: // one key renamed in its first byte ({"ak":v} -> {"bk":v})
+		if len(tagIdx) > 0 {
+			i := tagIdx[r.Intn(len(tagIdx))]
+			ks := make([]string, 0, len(q[i].Tags))
+			for k := range q[i].Tags {
+				ks = append(ks, k)
+			}
+			sort.Strings(ks)
+			k := ks[0]
+			if k != "" {
+				nk := string([]byte{k[0] ^ 3}) + k[1:]
+				if _, clash := q[i].Tags[nk]; !clash {
+					q[i].Tags[nk] = q[i].Tags[k]
+					delete(q[i].Tags, k)
+					return q
+				}
+			}
+		}
 	case 0: // one value changed
 		if len(tagIdx) > 0 {
 			i := tagIdx[r.Intn(len(tagIdx))]
@@ -146,6 +165,17 @@ func c05Identity(c *mon.Ctx, r *mon.Rand) {
 	}
 	c.Eval(1)
 	base := pool.prog(r, 4)
+	if r.Chance(1, 5) {
+		// a wide tag set (beyond the key writer's small-input paths) with one of
+		// its keys overridden at the end
+		wide := map[string]string{}
+		for i, n := 0, r.Range(10, 45); i < n; i++ {
+			wide[fmt.Sprintf("w%02d", i)] = pool.vals[r.Intn(len(pool.vals))]
+		}
+		base = append(dprog{{IsTag: true, Tags: wide}}, base...)
+		base = append(base, dstep{IsTag: true, Tags: map[string]string{fmt.Sprintf("w%02d", r.Intn(len(wide))): "overridden"}})
+		c.Class("cases-with-a-wide-tag-set", 1)
+	}
 	progs := []dprog{base}
 	np := r.Range(1, 4)
 	for i := 0; i < np; i++ {
@@ -289,6 +319,53 @@ func c05Identity(c *mon.Ctx, r *mon.Rand) {
 			}
 		}
 		tally.VerifReportPass(root)
+		// half of the cases: close one derived scope and derive every program
+		// again - sharing must hold for the second life of an identity as well
+		if len(nodes) > 1 && r.Bool() && uniq > 0 && uniq < 1<<30 {
+			victim := nodes[1+r.Intn(len(nodes)-1)]
+			if ptr(victim.sc) == ptr(root) {
+				return
+			}
+			victim.sc.(io.Closer).Close()
+			if r.Bool() {
+				tally.VerifReportPass(root)
+			}
+			c.Class("cases-with-close-and-derive-again", 1)
+			var nodes2 []node
+			for pi, p := range progs {
+				ids, _ := rc.trace(p)
+				scs := p.clone().apply(root)
+				for i := range ids {
+					nodes2 = append(nodes2, node{ids[i], ids[i].key(), ids[i].canonical(), scs[i], fmt.Sprintf("program %d step %d (derived again after a Close)", pi, i)})
+				}
+			}
+			for i := 0; i < len(nodes2); i++ {
+				if nodes2[i].key == victim.key && ptr(nodes2[i].sc) == ptr(victim.sc) {
+					c.Violation("closed-scope-returned/"+kind, map[string]interface{}{"why": "deriving an identity again after its scope was closed returned the closed scope object", "where": nodes2[i].where, "identity": victim.id, "case": desc})
+				}
+				for j := i + 1; j < len(nodes2); j++ {
+					a, b := nodes2[i], nodes2[j]
+					sameID, samePtr := a.key == b.key, ptr(a.sc) == ptr(b.sc)
+					if sameID && !samePtr {
+						c.Violation("identity-split/"+kind, map[string]interface{}{"why": "equal prefix and effective tags, but different scope objects (after a Close and re-derivation)", "a": a.where, "b": b.where, "identity": a.id, "closed": victim.id, "case": desc})
+					} else if !sameID && samePtr {
+						c.Violation("identity-merge/"+kind, map[string]interface{}{"why": "different prefix or tags, but the same scope object (after a Close and re-derivation)", "a": a.where, "b": b.where, "case": desc})
+					}
+				}
+			}
+			seen2 := map[uintptr]bool{}
+			for _, n := range nodes2 {
+				p := ptr(n.sc)
+				if seen2[p] || uniq <= 0 {
+					continue
+				}
+				seen2[p] = true
+				n.sc.Counter("m").Inc(uniq)
+				expected[mon.IdentKey(rc.metricName(n.id, "m"), n.id.Tags)] += uniq
+				uniq <<= 1
+			}
+			tally.VerifReportPass(root)
+		}
 	})
 	var agg map[string]mon.Agg
 	if cached {
